@@ -5,6 +5,7 @@ Functions under contract (all obligations generated from the source in the tree 
     BolfiPosterior._within_bounds                  loop invariant: logical[r] <=> forall i. lo_i <= x[r,i] <= hi_i (closed box)
     BolfiPosterior._unnormalized_loglikelihood x4  rows outside keep -inf, rows inside = logPhi((h - mean)/sqrt(var)) of the surrogate's answer
                                                    for exactly the inside rows in order; answer shape follows the query shape
+    BolfiPosterior.__init__ x4                     self.threshold = the given threshold for every value (0 / 0.0 included); minimiser iff None
     BolfiPosterior.logpdf x2, pdf x2               extended reals: log-likelihood + log prior inside, -inf outside; pdf = exp(logpdf), 0 outside
   SMT tier, surrogate state machine (contracts/c10_gp.py):
     GPyRegression.predict / predictive_gradients   cached algebra iff is_sampling and _kernel_is_default, cache refreshed first iff not marked
@@ -161,6 +162,8 @@ def replay_refuted(cname, rf):
         order = ['optimize', 'update', 'enter']
     elif cname.startswith('GPyRegression.'):
         order = ['enter', 'update', 'optimize']
+    elif cname.startswith('BolfiPosterior.__init__'):
+        order = ['threshold0']
     else:
         order = []
     for kind in order:
